@@ -747,9 +747,14 @@ def lSpecs : List LSpec :=
 def customObjects : List String :=
   ["QInitializer", "QDense", "QConv1D", "QConv2D", "QConv2DTranspose", "QSimpleRNNCell", "QSimpleRNN", "QLSTMCell", "QLSTM", "QGRUCell", "QGRU", "QBidirectional", "QDepthwiseConv2D", "QSeparableConv1D", "QSeparableConv2D", "QActivation", "QAdaptiveActivation", "QBatchNormalization", "Clip", "quantized_bits", "bernoulli", "stochastic_ternary", "ternary", "stochastic_binary", "binary", "quantized_relu", "quantized_ulaw", "quantized_tanh", "quantized_sigmoid", "quantized_po2", "quantized_relu_po2", "quantized_linear", "quantized_hswish", "QConv2DBatchnorm", "QDepthwiseConv2DBatchnorm", "QAveragePooling2D", "QGlobalAveragePooling2D", "QScaleShift"]
 
+/-- the built-in activation names of Keras (public functions of `tf.keras.activations`) -/
+def kerasActivationNames : List String :=
+  ["elu", "exponential", "gelu", "hard_sigmoid", "linear", "mish", "relu", "selu", "sigmoid", "softmax", "softplus", "softsign", "swish", "tanh"]
+
 /-- the environment of the real library; `clipBound` stays a parameter -/
 def env (clipBound : QVal → PyVal) : Env :=
-  { qspecs := qSpecs, lspecs := lSpecs, customObjects := customObjects, clipBound := clipBound }
+  { qspecs := qSpecs, lspecs := lSpecs, customObjects := customObjects, clipBound := clipBound,
+    kerasNames := kerasActivationNames }
 
 end QKV.LC
 
